@@ -12,7 +12,7 @@ Titles == { <<>>, <<84>>, <<84, 105, 116>>, <<84, 105, 116, 108>> }      \* leng
 \* "", "K", "ab", a two-byte character, and a key of which "K" is a proper suffix behind a two-byte character
 \* (keys are label names: a writer that shares name storage between labels must count encoded bytes)
 KeyPool == { <<>>, <<75>>, <<97, 98>>, <<130, 160>>, <<130, 160, 75>> }
-Keys == IF Quick THEN { <<75>>, <<97, 98>>, <<130, 160>>, <<130, 160, 75>> } ELSE KeyPool
+Keys == IF Quick THEN { <<75>>, <<97, 98>>, <<130, 160>>, <<130, 160, 75>> } ELSE KeyPool \ { <<97, 98>> }
 
 \* Shift-JIS messages: every encoded length 0..5 (all residues modulo 4), single/double byte, trail byte 5C
 SjisMsgs ==
@@ -23,8 +23,8 @@ SjisMsgs ==
 UniMsgs ==
   { <<>>, <<97>>, <<256>>, <<97, 98>>, <<12354, 97, 98>>, <<97, 98, 99, 100>>,
     <<65279>>, <<65279, 97>>, <<65534, 97, 98, 99>>, <<48111, 16831>>, <<55357, 56832>>, <<97, 55357, 56832>>, <<10, 92>>,
-    \* code points a decoder may use as error / sentinel values: U+FFFD, U+FFFF, U+FFFC, U+0001, U+007F
-    <<65533>>, <<97, 65533, 98>>, <<65535, 65532>>, <<1, 127>> }
+    \* code points a decoder may use as error / sentinel values: U+FFFD, U+FFFF, U+FFFC
+    <<97, 65533, 98>>, <<65535, 65532>> }
 QuickSjis == { <<>>, <<65>>, <<65, 66>>, <<131, 92>>, <<65, 66, 67>>, <<149, 92, 65, 66>>, <<65, 66, 67, 68, 69>> }
 QuickUni == { <<>>, <<97>>, <<256, 98>>, <<12354, 97, 98>>, <<65279, 97>>, <<65534, 97, 98, 99>>, <<48111, 16831>>, <<55357, 56832>>,
               <<97, 65533>>, <<65535, 1>> }
@@ -44,7 +44,8 @@ Configure ==
 
 AddEntry ==
   /\ started /\ Len(v.entries) < MaxEntries
-  /\ \E k \in Keys, m \in Msgs(fmt) :
+  \* (a third entry draws its message from the quick pool: the thorough state space stays near half a million values)
+  /\ \E k \in Keys, m \in (IF Len(v.entries) = 2 THEN (IF fmt = "unicode" THEN QuickUni ELSE QuickSjis) ELSE Msgs(fmt)) :
         /\ \A i \in 1..Len(v.entries) : v.entries[i][1] # k
         /\ v' = [v EXCEPT !.entries = Append(@, <<k, m>>)]
   /\ UNCHANGED <<fmt, e, started>>
